@@ -481,6 +481,11 @@ func genC02(r *Rand, tier, profile string) *Case {
 			gap = int64(r.Range(100, 1500))
 		}
 		q := 1 + r.Intn(2)
+		if stallAt < 0 && n <= 60 && r.Bool(0.04) {
+			// the node's own log refuses this write: then no acknowledgement is due - and if one
+			// comes, the message had better be delivered
+			c.Steps = append(c.Steps, Step{K: "appendfail", At: 1, N: 0, I: 1})
+		}
 		if i == stallAt {
 			// shorter than the first retransmission deadline (3 s, swept up to half a second early):
 			// only the writer waits on the stalled connection, so the order in which things resume is
@@ -818,12 +823,18 @@ func genC07(r *Rand, tier, profile string) *Case {
 	c.Knobs["nodes"] = int64(nodes)
 	gossipKnobs(r, c)
 	topics := append([]string(nil), c07Topics...)
+	if r.Bool(0.25) {
+		topics = append(topics, "a/", "a/b/", "b/") // a trailing empty level is a level
+	}
 	if r.Bool(0.3) {
 		for i := 0; i < 3; i++ {
 			topics = append(topics, genTopic(r, false))
 		}
 	}
 	filters := []string{"#", "a/#", "a/+", "+", "+/b", "a/b/#", "+/+/c", "a", "a/b", "b", "a/b/c", "+/#", "a/+/c"}
+	if len(topics) > len(c07Topics) && strings.HasSuffix(topics[len(c07Topics)], "/") {
+		filters = append(filters, "a/", "+/", "a/b/", "a/+/")
+	}
 	var ts []tstep
 	t := int64(1)
 	nc := r.Range(2, 4)
